@@ -385,6 +385,11 @@ pub fn orchestrate(p: &dyn Prop, tier: Tier, plan: &Plan, jobs: usize) -> CheckR
         let hangs_confirmed = std::sync::atomic::AtomicUsize::new(0);
         let inflight = std::sync::atomic::AtomicUsize::new(0);
         const CONFIRM_FIRST: usize = 4;
+        // a stage in which this many cases hung is not explored further: the verdict is in, every
+        // further hanging case costs STUCK_SECS of a core, and a change that makes a whole family
+        // of inputs hang has thousands of them (the cases left out are counted in the evidence)
+        const HANG_CAP: usize = 24;
+        let hang_fails = std::sync::atomic::AtomicUsize::new(0);
         std::thread::scope(|s| {
             for _ in 0..jobs {
                 s.spawn(|| loop {
@@ -415,6 +420,10 @@ pub fn orchestrate(p: &dyn Prop, tier: Tier, plan: &Plan, jobs: usize) -> CheckR
                         }
                     }
                     let _done = Done(&inflight);
+                    if hang_fails.load(std::sync::atomic::Ordering::SeqCst) >= HANG_CAP {
+                        results.lock().unwrap().0.count("cases_not_explored_after_24_hangs_in_the_stage", b - a);
+                        continue;
+                    }
                     // one case of a multi-case stage (isolated by the watchdog or by bisection):
                     // its own wall cap, not the whole chunk's
                     let cap = if st.chunk > 1 && b - a == 1 { st.timeout.min(Duration::from_secs(2 * STUCK_SECS)) } else { st.timeout };
@@ -450,6 +459,7 @@ pub fn orchestrate(p: &dyn Prop, tier: Tier, plan: &Plan, jobs: usize) -> CheckR
                             r.0.idx = Some(i);
                             let case = format!("{}|{}", st.name, p.case_text(tier, si, i));
                             r.0.fail(p.crash_key(tier, si, i, "hang"), case, format!("worker process sat on this case for more than {} s (reported by its watchdog; not re-run alone because {} hangs of this stage were already confirmed)", STUCK_SECS, CONFIRM_FIRST));
+                            hang_fails.fetch_add(1, std::sync::atomic::Ordering::SeqCst);
                         }
                         bad => {
                             let how = match &bad {
@@ -489,6 +499,9 @@ pub fn orchestrate(p: &dyn Prop, tier: Tier, plan: &Plan, jobs: usize) -> CheckR
                                         r.0.stage = Some(si);
                                         r.0.idx = Some(a);
                                         r.0.fail(key, case, format!("worker process {}: {}", how, detail));
+                                        if how == "hang" {
+                                            hang_fails.fetch_add(1, std::sync::atomic::Ordering::SeqCst);
+                                        }
                                     }
                                 }
                             } else {
